@@ -201,6 +201,7 @@ impl MsgSpec {
             MsgSpec::Short(v) if v.len() <= 1 => "tiny",
             MsgSpec::Short(_) => "short",
             MsgSpec::Sized { len, .. } if *len >= 1024 => "long",
+            MsgSpec::Sized { len, .. } if *len >= 138 => "medium",
             MsgSpec::Sized { .. } => "block-boundary",
         }
     }
@@ -213,6 +214,7 @@ pub fn msg_strategy(max_long: u32) -> BoxedStrategy<MsgSpec> {
         4 => proptest::collection::vec(any::<u8>(), 0..48).prop_map(MsgSpec::Short),
         3 => (0usize..BOUNDARY_LENS.len(), any::<u64>()).prop_map(|(i, seed)| MsgSpec::Sized { len: BOUNDARY_LENS[i], seed }),
         2 => (1024u32..=max_long.max(1025), any::<u64>()).prop_map(|(len, seed)| MsgSpec::Sized { len, seed }),
+        2 => (138u32..1024, any::<u64>()).prop_map(|(len, seed)| MsgSpec::Sized { len, seed }),
     ]
     .boxed()
 }
